@@ -15,7 +15,7 @@ CLAIMED.update({
          "Pre(bootalloc) assumed and shown preserved; out-of-memory completeness is deliberately not asserted (the property states one direction only). Map entries <= 130 frames, addresses < 2^52.", "7 C02"),
  "C03": ("Same engine and state space as C01: init lemma (never crashes; totals agree with the bitmaps; exact marking), FreeFrame step (rejected frees change nothing, accepted free clears exactly one bit), AllocFrame step (thorough tier) and drain (exactly m successes then out-of-memory).",
          "As C01. The quick tier leaves the AllocFrame step lemma to C01's check (same harness body); thorough runs it here too.", "7 C03"),
- "C09": ("Lock-discipline monitor on the real AllocFrame/FreeFrame over the C01 state space: every access to the allocator's mutable shared state (bitmap words, per-pool freeCount, reservedPages, totalPages) happens while alloc.mutex is held, Acquire happens on a free lock (a second Acquire is reported as blocking forever), and the lock is free again on every return path. Together with C08 (the lock admits one holder) and the C01/C03 step lemmas this lifts sequential correctness to concurrent histories by reduction (argument in DESIGN.md, not machine-checked).",
+ "C09": ("Lock-discipline monitor on the real AllocFrame/FreeFrame over the C01 state space: every access to the allocator's mutable shared state (bitmap words, per-pool freeCount, reservedPages, totalPages) happens while alloc.mutex is held, Acquire happens on a free lock (a second Acquire is reported as blocking forever), and the lock is free again on every return path. The same command then regenerates the C08 lock transition system from kernel/sync and discharges its quick queries (the mutex admits one holder), reported under C09. Together with the C01/C03 step lemmas this lifts sequential correctness to concurrent histories by reduction (argument in DESIGN.md, not machine-checked).",
          "Sequential symbolic execution with a byte-range lock monitor; concurrency itself is covered by the C08 transition-system check plus the reduction argument; x86-TSO assumptions as in C08. Violations found by the monitor have no native oracle and are reported on the symbolic evidence alone.", "7 C09"),
  "C10": ("Bounded symbolic model checking of the real multiboot decoder over a raw memory region with symbolic bytes and a symbolic accessible limit (any read past the block's own end is a violation): findTagByType (symbolic tag order/sizes), VisitMemRegions (entry size 24/32/40, every 32-bit type, early stop), GetFramebufferInfo/RGBColorInfo, VisitElfSections (symbolic string table), GetBootCmdLine (real strings.Fields/Split from the standard library's SSA against a reference splitter).",
          "Well-formed blocks only (assumed layout); <=3 tags, <=3 sections, names <=3 bytes, command line <=5 ASCII bytes; block at a concrete 8-aligned address (A-ADDR).", "7 C10"),
@@ -24,9 +24,9 @@ CLAIMED.update({
 CLAIMED.update({
  "C13": ("Bounded symbolic model checking of the real ObjectTree: one editing operation (newObject, append, appendAfter, detach, free) from an arbitrary well-formed tree state of K objects (every link field, live/freed flag and free-list head symbolic) - the post-state equals a reference list model and is well-formed again, so edit histories of any length follow by induction - plus Find on a fixed 8-node shape for every well-formed expression form (symbolic name segments, all prefix forms, from every scope) against an independent resolver, and for arbitrary byte strings (no crash, result is not-found or an existing node), and NumArgs/ArgAt against the list model.",
          "WF(tree) and the documented operand preconditions are assumed for the step (arguments live, appended object detached and not an ancestor, root never re-parented); K = 4 (quick) / 5 (thorough); lookups use one fixed tree shape with concrete node names; expressions of up to 7 arbitrary bytes.", "7 C13"),
- "C15": ("Bounded symbolic model checking of the real kfmt.fmtInt / Fprintf: every value of all ten integer types in base 8/10/16 (digits checked by Horner reconstruction; decimal decided through cvc5's integer encoding), padding for every int padLen, %s/%t/wrong-type markers, and the whole format scanner over every format string of L bytes against a reference formatter (inside the documented language exact equality, for every string no panic).",
+ "C15": ("Bounded symbolic model checking of the real kfmt.fmtInt / Fprintf: every value of all eleven built-in integer types in base 8/10/16 (digits checked by Horner reconstruction; decimal decided through cvc5's integer encoding), padding for every int padLen, %s/%t/wrong-type markers, and the whole format scanner over every format string of L bytes against a reference formatter (inside the documented language exact equality, for every string no panic).",
          "Not decided: 'performs no heap allocation' (a property of the compiler's escape analysis, not of input/output behaviour). Bounds: pad harness values <= 8 bits, strings <= 3 bytes, widths in formats <= 2 digits, format length 3 (quick) / 4 (thorough), fixed argument lists.", "7 C15"),
- "C19": ("Bounded symbolic model checking of the real console drivers: VgaTextConsole Write/Fill/Scroll on grids up to 3x3 (4x3 thorough) with every cell and every 32-bit/8-bit argument symbolic, and VesaFbConsole Write/Fill/Scroll on a 2x2-cell grid with remainder row/column, pitch padding, logo offset, 8x2 and 9x2 synthetic fonts with symbolic glyph data, depth 8/16 (quick) or 8/15/16/24/32 with symbolic colour masks (thorough); every framebuffer byte is compared with an independent pixel-level oracle; any access outside the buffer is a violation.",
+ "C19": ("Bounded symbolic model checking of the real console drivers: VgaTextConsole Write/Fill/Scroll on grids up to 3x3 (4x3 thorough) with every cell and every 32-bit/8-bit argument symbolic, and VesaFbConsole Write/Fill/Scroll on a 2x2-cell grid with remainder row/column, pitch padding, logo offset, 8x2 and 9x2 synthetic fonts with symbolic glyph data, depth 8/16 (quick; Fill also 24) or 8/15/16/24/32 with symbolic colour masks (thorough); every framebuffer byte is compared with an independent pixel-level oracle; any access outside the buffer is a violation.",
          "Framebuffer = Go slice of exactly height*pitch bytes; in-grid coordinates are case-split (enumerated) and out-of-grid ones symbolic; characters < 4 with the synthetic 4-glyph fonts; one open known finding (KF-C19-1: framebuffer Scroll rewrites pitch padding / remainder rows).", "7 C19"),
 })
 
@@ -47,16 +47,16 @@ CLAIMED.update({
 CLAIMED.update({
  "C04": ("Bounded symbolic model checking of the real Map / Unmap / Translate / PageDirectoryTable.Init/Map/Unmap against an independent software MMU over a physical-memory region: every recursive-window address walk() produces is translated by four dependent loads from that memory; N operations on pages from a menu of 7 representative pages (all sharing patterns of table levels, both canonical halves, the temporary-mapping page) with symbolic frames, flags and junk in freshly allocated frames, allocator failure at a symbolic call; afterwards the MMU and Translate agree with a reference map for an arbitrary probe, leaf entries carry exactly the requested flags, changed pages are flushed, the recursive slot is intact; operations on an inactive root leave every page-table frame of the active space bit-for-bit unchanged.",
          "Pages are enumerated (menu), contents symbolic; physical memory of 8 (12) frames at its physical address; freshly allocated frames hold one arbitrary word replicated in all slots; the nextAddrFn seam maps Map's entry-pointer arithmetic back to the designated table (the <<9 recursive arithmetic of that one expression is not exercised); mapTemporaryFn is the identity stub of the repository's tests; TLB is a log.", "7 C04"),
- "C08": ("Transition system generated on every run from kernel/sync/spinlock_amd64.s and the go/ssa of Spinlock.Acquire/TryToAcquire/Release (macro-step folding of thread-local instructions): bounded model checking over every schedule (symbolic scheduler) of 2 threads x 1 lock operation x 13 macro-steps (thorough: 2x2x23, 3x1x19) and a one-step induction from an arbitrary state satisfying a label-free invariant for 2, 3 (4) threads: at most one holder, no lost update in the critical section, a failed TryToAcquire leaves the lock word unchanged, a release frees the lock, a free lock can be taken.",
-         "Sequential consistency + atomic locked XCHG (x86-TSO differs only by store->load reordering, which locked instructions drain); aligned MOVL atomic; yieldFn modelled as a call without effect on the lock word; liveness/fairness outside; counterexamples are schedule traces (no native replay of an instruction-level schedule).", "7 C08"),
+ "C08": ("Transition system generated on every run from kernel/sync/spinlock_amd64.s and the go/ssa of Spinlock.Acquire/TryToAcquire/Release (macro-step folding of thread-local instructions): bounded model checking over every schedule (symbolic scheduler) of 2 threads x 1 lock operation x 13 macro-steps (thorough: 2x2x23, 3x1x19) and a one-step induction from an arbitrary state satisfying a label-free invariant for 2, 3 (4) threads: at most one holder, no lost update in the critical section, a failed TryToAcquire leaves the lock word unchanged, a release frees the lock, a free lock can be taken, no task holds the lock while the lock word reads free, and a blocking acquire running alone on a free lock takes it within 12 macro-steps. The Go method bodies are compiled from SSA into node graphs (one node per sync/atomic call or call into the assembly), so Go-level changes to the lock are modelled.",
+         "Sequential consistency + atomic locked XCHG (x86-TSO differs only by store->load reordering, which locked instructions drain); aligned MOVL atomic; yieldFn modelled as a call without effect on the lock word; liveness/fairness under contention outside; an induction counterexample without a bounded-model counterexample is reported INCONCLUSIVE (its pre-state may be unreachable); counterexamples are schedule traces (no native replay of an instruction-level schedule).", "7 C08"),
 })
 
 CLAIMED.update({
  "C11": ("Bounded symbolic model checking of the real AML parser (ParseAML with all its passes) on well-formed programs of fixed shape with symbolic contents: every name segment, integer/string constant, flag byte and PkgLength encoding is decided by the solver; after a successful parse every declared object is located by its stream offset and checked for kind, name, absolute path (enclosing named scopes up to the root), integer/string arguments in order; method invocations before and after the declaration carry exactly the declared arguments.",
-         "Shapes are enumerated (three templates: ten kinds of named objects at the root and nested in a Device; Scope(\\_SB_) and a dual-name Scope through the predefined scope to a Device; forward and backward two-argument method calls), contents symbolic; this is not 'every program of the grammar': Scope targets that pass through two or more non-predefined objects, relative/parent-prefixed names, deferred buffers/while loops, multi-table loads and nesting depth > 2 are outside. kfmt.Fprintf stubbed while encoding.", "7 C11"),
- "C12": ("Bounded symbolic model checking of the real ParseAML on malformed input: every payload of up to 2 (thorough 3) arbitrary bytes behind a valid header, and templates with unconstrained holes (Device with a dual-name path of 8 arbitrary name bytes; Field Connection buffer with arbitrary length prefix): never panics, call depth stays within a budget proportional to the input (exceeding it = non-termination), every []byte the tree refers to lies inside the table region, the tree stays a tree (parent chains end, child lists consistent in both directions).",
-         "Arbitrary inputs longer than 3 bytes only through the two templates; termination = call-depth 120 / 600 decisions / 20M instructions per path; kfmt.Fprintf stubbed while encoding.", "7 C12"),
- "C14": ("Bounded symbolic model checking of the real locateRSDT and acpiDriver.DriverInit over raw firmware regions with symbolic bytes: RSDP found at the first 16-byte slot whose descriptor has the signature and a zero byte sum (revision-dependent size and root pointer), window unmapped on every path; RSDT/XSDT enumeration registers a listed table iff its bytes sum to zero, reports and skips bad ones, and registers the DSDT a checksum-valid FADT designates (32-bit pointer for revision < 2 roots, else the 64-bit one, 32-bit when that is zero).",
+         "Shapes are enumerated (seven templates: ten kinds of named objects at the root and nested in a Device; Scope(\\_SB_) and a dual-name Scope to a Device; forward and backward two-argument method calls; parent-prefix, relative and absolute multi-segment names and Scope targets through two nested Devices; invocations with operator expressions as arguments / as operands; If nested in a While body; 0..7-argument invocation inside a deferred block), contents symbolic; this is not 'every program of the grammar': multi-table loads, Buffer size expressions, BankField, nesting depth > 3 are outside. Two open known findings (KF-C11-1 parent-prefix names inside a Device, KF-C11-4 If inside While), both encoded in the repository's golden files. kfmt.Fprintf stubbed while encoding.", "7 C11"),
+ "C12": ("Bounded symbolic model checking of the real ParseAML on malformed input: every payload of up to 2 (thorough 3) arbitrary bytes behind a valid header, and templates with unconstrained holes (Device with a dual-name path of 8 arbitrary name bytes; Field Connection buffer with arbitrary length prefix; Scope(\\_SB_) with a 1..2-byte arbitrary body; path-declared Name followed by a Scope directive with 8 arbitrary name bytes; nested Buffers with both package-length bytes from a menu of 20 values): never panics, call depth stays within a budget proportional to the input (exceeding it = non-termination), every []byte the tree refers to lies inside the table region, the tree stays a tree (parent chains end, child lists consistent in both directions).",
+         "Arbitrary inputs longer than 3 bytes only through the five templates; termination = call-depth 120 / 600 decisions / 20M instructions per path; kfmt.Fprintf stubbed while encoding.", "7 C12"),
+ "C14": ("Bounded symbolic model checking of the real locateRSDT and acpiDriver.DriverInit over raw firmware regions with symbolic bytes: RSDP found at the first 16-byte slot whose descriptor has the signature and a zero byte sum (20 bytes for revision 0, the 36 bytes of the ACPI 2.0 structure otherwise - stated from the specification, not from the padded Go struct), window unmapped on every path; RSDT/XSDT enumeration registers a listed table iff its bytes sum to zero, reports and skips bad ones, and registers the DSDT a checksum-valid FADT designates (32-bit pointer for revision < 2 roots, else the 64-bit one, 32-bit when that is zero); the DSDT is placed alone in its frame, page-aligned or crossing a page boundary, and the mappings the driver requests must reach what it then reads (open known finding KF-C14-2).",
          "Table lengths and entry addresses are written (concrete) by the harness; signatures pairwise distinct; quick tier: 1 plain table + FADT + DSDT with FADT body bytes zero, thorough: 3 tables, all bytes symbolic; mapping functions are the repository's test seams; kfmt.Fprintf replaced by a one-byte report.", "7 C14"),
  "C16": ("Bounded symbolic model checking of the real kfmt ring buffer (Write/Read step lemmas over an arbitrary ring state of 2048 arbitrary bytes, checked at an arbitrary position), SetOutputSink hand-over (real io.Copy), PrefixWriter, and of hal.DetectHardware with 3 (4) mock drivers of arbitrary detection order byte, kind and probe/init outcome (real sort.Sort, bytes.Buffer, PrefixWriter): probes in non-decreasing order, failed drivers never active, first console/terminal win, terminal attached before it becomes the log sink, and the exact expected log text arrives on it once and in order.",
          "Mock consoles do not implement LogoSetter/FontSetter (boot-command-line handling outside); driver names/versions fixed; ring Write <= 3 bytes, Read <= 4 bytes per step.", "7 C16"),
